@@ -34,7 +34,7 @@ def swap_mixture(mix):
 
 
 def tol_for(p):
-    return 1e-9 + 1e-14 / max(min(p, 1.0 - p), 1e-300)
+    return 1e-9 + 1e-13 / max(min(p, 1.0 - p), 1e-300)  # 1 - p carries eps/min(p,1-p) relative error (x10 margin: thorough-tier false alarm at 1.1e-8)
 
 
 # ------------------------------------------------------------------------------------- thermodynamics
